@@ -391,6 +391,12 @@ func (r *Run) Finish() {
 	if len(broken) > 0 {
 		cov["broken"] = broken
 	}
+	if r.Assumptions == nil {
+		r.Assumptions = []string{}
+	}
+	if r.samples == nil {
+		r.samples = []any{}
+	}
 	ev := map[string]any{
 		"property_id": r.ID,
 		"tier":        r.Tier,
